@@ -174,13 +174,26 @@ void EpollFdEvent::OnEventCallback(uint32_t events, void *obj)
         tbox_events |= kReadEvent;
     }
 
+    const int fd = d->fd;
+
     //! 要先复制一份，因为在for中很可能会改动到d->fd_events，引起迭代器失效问题
     auto tmp = d->fd_events;
-    for (auto event : tmp)
-        event->onEvent(tbox_events);
+    if (!tmp.empty()) {
+        //! 回调中可能会disable或delete同一个fd上排在后面的事件，甚至令d的引用计数归零。
+        //! 所以遍历期间先持有d的一个引用，并且只触发此刻仍在d->fd_events中（即仍处于enable状态）的事件
+        EpollLoop *wp_loop = tmp.front()->wp_loop_;
+        ++d->ref;
+
+        for (auto event : tmp) {
+            if (std::find(d->fd_events.begin(), d->fd_events.end(), event) != d->fd_events.end())
+                event->onEvent(tbox_events);
+        }
+
+        wp_loop->unrefFdSharedData(fd);  //! 此后d可能已被释放
+    }
 
     if (events)
-        LogWarn("unhandle events:%08X, fd:%d", events, d->fd);
+        LogWarn("unhandle events:%08X, fd:%d", events, fd);
 }
 
 void EpollFdEvent::onEvent(short events)
